@@ -289,23 +289,23 @@ pub fn run_ser(ts: &mut Toks) -> Option<String> {
 }
 
 // ---------------------------------------------------------------- C14: decoding into typed values
-#[derive(serde::Deserialize, Debug, PartialEq)]
+#[derive(serde::Serialize, serde::Deserialize, Debug, PartialEq)]
 struct Pt { x: i32, y: Option<String> }
-#[derive(serde::Deserialize, Debug, PartialEq)]
+#[derive(serde::Serialize, serde::Deserialize, Debug, PartialEq)]
 struct Wrap(u8);
-#[derive(serde::Deserialize, Debug, PartialEq)]
+#[derive(serde::Serialize, serde::Deserialize, Debug, PartialEq)]
 struct Pair(i16, String);
-#[derive(serde::Deserialize, Debug, PartialEq)]
+#[derive(serde::Serialize, serde::Deserialize, Debug, PartialEq)]
 struct Marker;
-#[derive(serde::Deserialize, Debug, PartialEq)]
+#[derive(serde::Serialize, serde::Deserialize, Debug, PartialEq)]
 enum En { A, B(u32), C(i8, bool), D { p: f64, q: Vec<u8> } }
-#[derive(serde::Deserialize, Debug, PartialEq, Eq, PartialOrd, Ord, Hash)]
+#[derive(serde::Serialize, serde::Deserialize, Debug, PartialEq, Eq, PartialOrd, Ord, Hash)]
 struct UserId(String);
-#[derive(serde::Deserialize, Debug, PartialEq, Eq, PartialOrd, Ord)]
+#[derive(serde::Serialize, serde::Deserialize, Debug, PartialEq, Eq, PartialOrd, Ord)]
 enum Color { Red, Green }
-#[derive(serde::Deserialize, Debug, PartialEq)]
+#[derive(serde::Serialize, serde::Deserialize, Debug, PartialEq)]
 enum En2 { At(Option<i32>), Mark(()), U(Marker), W(Wrap), V(Vec<u8>), N(Option<Option<bool>>), E(En), S {}, T() }
-#[derive(serde::Deserialize, Debug, PartialEq)]
+#[derive(serde::Serialize, serde::Deserialize, Debug, PartialEq)]
 struct Nest { e: En, l: Vec<Pt>, m: BTreeMap<String, Option<En>>, t: (u64, i64), w: Wrap }
 
 fn de_both<T: for<'a> Deserialize<'a> + std::fmt::Debug>(v: &Variable) -> String {
@@ -366,6 +366,64 @@ pub fn run_de(ts: &mut Toks) -> Option<String> {
         "vec_en2" => de_both::<Vec<En2>>(&v),
         "map_en2" => de_both::<BTreeMap<String, En2>>(&v),
         "value" => de_both::<serde_json::Value>(&v),
+        _ => return None,
+    })
+}
+
+fn dex_both<T: for<'a> Deserialize<'a> + Serialize>(v: &Variable) -> String {
+    let side = |r: Option<T>| match r.and_then(|x| crate::tokser::tokens(&x)) {
+        Some(t) => format!("OK {}", t),
+        None => "ERR".to_string(),
+    };
+    let ours = T::deserialize(v.clone()).ok();
+    let theirs = serde_json::to_value(v).ok().and_then(|j| serde_json::from_value::<T>(j).ok());
+    format!("{} | {}", side(ours), side(theirs))
+}
+
+// dex <type-id> <value> : the decoded value observed structurally (serde data model tokens), library | serde_json
+pub fn run_dex(ts: &mut Toks) -> Option<String> {
+    let ty = ts.next()?;
+    let v = rd_value(ts)?;
+    Some(match ty {
+        "bool" => dex_both::<bool>(&v),
+        "i8" => dex_both::<i8>(&v),
+        "i16" => dex_both::<i16>(&v),
+        "i32" => dex_both::<i32>(&v),
+        "i64" => dex_both::<i64>(&v),
+        "u8" => dex_both::<u8>(&v),
+        "u16" => dex_both::<u16>(&v),
+        "u32" => dex_both::<u32>(&v),
+        "u64" => dex_both::<u64>(&v),
+        "f64" => dex_both::<f64>(&v),
+        "char" => dex_both::<char>(&v),
+        "string" => dex_both::<String>(&v),
+        "unit" => dex_both::<()>(&v),
+        "opt_i32" => dex_both::<Option<i32>>(&v),
+        "opt_opt" => dex_both::<Option<Option<bool>>>(&v),
+        "vec_u64" => dex_both::<Vec<u64>>(&v),
+        "vec_vec" => dex_both::<Vec<Vec<i8>>>(&v),
+        "tup2" => dex_both::<(i32, i32)>(&v),
+        "tup3" => dex_both::<(u8, String, Option<bool>)>(&v),
+        "arr2" => dex_both::<[i32; 2]>(&v),
+        "map_u32" => dex_both::<BTreeMap<String, u32>>(&v),
+        "map_char" => dex_both::<BTreeMap<char, i64>>(&v),
+        "pt" => dex_both::<Pt>(&v),
+        "wrap" => dex_both::<Wrap>(&v),
+        "pair" => dex_both::<Pair>(&v),
+        "marker" => dex_both::<Marker>(&v),
+        "en" => dex_both::<En>(&v),
+        "nest" => dex_both::<Nest>(&v),
+        "map_nt" => dex_both::<BTreeMap<UserId, u32>>(&v),
+        "map_nt_nest" => dex_both::<BTreeMap<String, BTreeMap<UserId, Vec<String>>>>(&v),
+        "map_enumkey" => dex_both::<BTreeMap<Color, i8>>(&v),
+        "map_i32key" => dex_both::<BTreeMap<i32, bool>>(&v),
+        "map_u64key" => dex_both::<BTreeMap<u64, Option<u8>>>(&v),
+        "map_boolkey" => dex_both::<BTreeMap<bool, u8>>(&v),
+        "en2" => dex_both::<En2>(&v),
+        "opt_en" => dex_both::<Option<En>>(&v),
+        "vec_en2" => dex_both::<Vec<En2>>(&v),
+        "map_en2" => dex_both::<BTreeMap<String, En2>>(&v),
+        "value" => dex_both::<serde_json::Value>(&v),
         _ => return None,
     })
 }
